@@ -63,7 +63,10 @@ def _draw_layout(rng, *, max_features=12, min_samples=14, max_samples=30, allow_
         budget = max(2, budget - sz)
         fields.append(fd)
     d["fields"] = fields
-    d["names"] = rng.choice([["v0", "v1", "v2"], ["sst", "slp", "u"], ["a", "b", "c"]])
+    d["names"] = rng.choice([["v0", "v1", "v2"], ["sst", "slp", "u"], ["a", "b", "c"], ["sst", "slp", "u"],
+                             # names that collide with xeofs' own internal keys / attribute names
+                             ["components", "scores", "norms"], ["mean_", "std_", "weights_"],
+                             ["input_data", "data", "preprocessor"]])
     if container == "list" and rng.random() < 0.15 and max_features >= 12:
         # a long list: per-item bookkeeping is keyed "0".."11" in the serialised tree ("10" sorts before "2");
         # items differ in dimension name, size and coordinate kind so that a mix-up cannot go unnoticed
